@@ -8,6 +8,7 @@ import (
 	"strconv"
 	"strings"
 	"syscall"
+	"time"
 
 	"github.com/goose-lang/goose/machine/async_disk"
 	"github.com/goose-lang/goose/machine/disk"
@@ -203,6 +204,7 @@ type diskDriver struct {
 	glob  bool
 	async bool
 	file  bool
+	hung  bool // an operation did not return: the disk is unusable until the next `new`
 }
 
 func (dd *diskDriver) open(n uint64) string {
@@ -323,7 +325,17 @@ func (dd *diskDriver) one(w []string) string {
 		if !ok1 || !ok2 {
 			return "bad-op"
 		}
-		b := make([]byte, l)
+		// the capacity often exceeds the length (a window into a staging area): only the length may matter to the disk
+		c := l
+		switch f % 3 {
+		case 0:
+			if l < 4096 {
+				c = 4096
+			}
+		case 1:
+			c = l + 4096
+		}
+		b := make([]byte, l, c)
 		for i := range b {
 			b[i] = byte(f)
 		}
@@ -434,7 +446,34 @@ func diskRun(lines []string) {
 		defer os.Remove(dd.path)
 	}
 	for _, l := range lines {
-		proto.Reply("%s", dd.one(strings.Fields(l)))
+		w := strings.Fields(l)
+		isNew := len(w) > 0 && (w[0] == "new" || w[0] == "newimg")
+		if dd.hung {
+			if !isNew {
+				proto.Reply("hang")
+				continue
+			}
+			// leave the stuck disk (and whatever goroutine still sits in it) behind
+			dd = &diskDriver{path: dd.path, glob: dd.glob, async: dd.async, file: dd.file}
+		}
+		if optPin {
+			// under strace fault injection every system call must come from the pinned thread: no watchdog
+			proto.Reply("%s", dd.one(w))
+			continue
+		}
+		cur := dd
+		done := make(chan string, 1)
+		go func() { done <- cur.one(w) }()
+		select {
+		case r := <-done:
+			proto.Reply("%s", r)
+		case <-time.After(8 * time.Second):
+			// e.g. a lock that a panicking operation never released
+			proto.Reply("hang")
+			dd.hung = true
+		}
 	}
-	dd.closeDisk()
+	if !dd.hung {
+		dd.closeDisk()
+	}
 }
